@@ -245,6 +245,7 @@ def specs(tier):
 
     add("gd")
     add("gd-verbose", verbose=1)
+    add("gd-verbose2", verbose=2)
     add("gd-2metrics", metrics=2)
     add("gd-cons", cons=['le', 'ge', 'eq', 'rle'])
     add("gd-lmi-sym", lmis=['sym2'])
